@@ -108,7 +108,9 @@ def expected(cell, mid, token):
     multicast = local != "uni"
     if code == 0:
         if t == rc.CON:
-            return None if multicast else [("RST", mid, "empty", None)]
+            # "an empty confirmable message (ping) is answered with a Reset" - the statement makes no exception for a ping
+            # that arrived on a multicast address (the exception is for unmatched responses); the Reset goes to the sender
+            return [("RST", mid, "empty", None)]
         return []
     if 1 <= code < 32:
         rcode = 69 if code == 1 else 133
@@ -293,6 +295,62 @@ def run_behind_unacked(res, cell):
         res.transitions += 2
         res.outcomes.add(core.digest(("behind", got)))
         res.signatures.add(core.digest(("behind", cell)))
+    finally:
+        w.dispose()
+
+
+def run_mid_crossing(res, cell, reaction):
+    """Message IDs of the two directions are separate spaces: the node's separate CON response went out under its own ID M and
+    was acknowledged (or reset) by the peer under M; a message of the peer that happens to carry M as *its* ID is a new message
+    and gets the table's reaction."""
+    w, node, req, tok, reqmid, calls = build()
+    try:
+        for n in w.nodes.values():
+            if hasattr(n, "autoack"):
+                n.autoack = False
+        t0 = w.loop.time()
+        first = (rc.CON, 1, False, "peer", "uni", "slow", None)
+        data, mid0, token0 = incoming(first, tok, 0)
+        w.inject(PEER, NODE, data, local_ip=LOCALS["uni"])
+        w.loop.advance_to(t0 + 0.6)        # empty ACK at +0.1, separate CON response at +0.5
+        sep = [rc.decode(d.data, check_formats=False) for d in w.sent if d.src == NODE and d.data[0] & 0x30 == 0 and d.data[1] >= 64]
+        if len(sep) != 1:
+            res.violate(Violation("reaction-table", "one separate CON response", len(sep), "messagemanager.py", {"mid_crossing": list(cell)}, key="cross/setup"))
+            return
+        M = sep[0][2]
+        w.pool.clear()
+        w.inject(PEER, NODE, rc.encode((rc.ACK if reaction == "ack" else rc.RST, 0, M, b"", [], b"")), local_ip=LOCALS["uni"])
+        w.loop.advance_to(t0 + 0.7)
+        t1 = w.loop.time()
+        n_before = len(w.sent)
+        old = MIDBASE[0]
+        MIDBASE[0] = (M - 1) & 0xFFFF
+        try:
+            data, mid, token = incoming(cell, tok, 1)
+        finally:
+            MIDBASE[0] = old
+        w.inject(PEER if cell[3] == "peer" else PEER2, NODE, data, local_ip=LOCALS[cell[4]])
+        for n in w.nodes.values():
+            if hasattr(n, "autoack"):
+                n.autoack = True
+        w.loop.advance_to(t1 + 0.8)
+        earlier = {d.data for d in w.sent[:n_before]}
+        replies = [(dg, rc.decode(dg.data, check_formats=False)) for dg in w.sent[n_before:]
+                   if dg.src == NODE and dg.data not in earlier and not (1 <= dg.data[1] < 32)]
+        got = classify(replies, [mid], [token], t1, with_time=True)
+        exp = expected(cell, mid, token)
+        case = {"mid_crossing": list(cell), "reaction": reaction}
+        res.evaluations += 1
+        res.traces += 1
+        if exp is not None and got != norm_expected(exp):
+            res.violate(Violation("reaction-after-own-message-id", norm_expected(exp), got, "messagemanager.py:dispatch_message", case, trace=w.trace[-20:],
+                                  key="cross/" + cells_key([cell])))
+        for msg, e in w.loop_exceptions():
+            res.violate(Violation("loop-exception", "none", core.exc_desc(e) if e else msg, core.site_of(e) if e else "loop", case, key="loop"))
+        res.states.add(core.digest(("cross", cell, reaction, got)))
+        res.transitions += 3
+        res.outcomes.add(core.digest(("cross", got)))
+        res.signatures.add(core.digest(("cross", cell, reaction)))
     finally:
         w.dispose()
 
@@ -486,6 +544,11 @@ def job(arg):
             for b in ("0", "D-e", "slow"):
                 for t in (rc.CON, rc.NON):
                     run_same_token(res, a, b, t)
+        for c in items:
+            if 64 <= c[1] < 192 and c[2]:
+                continue
+            for reaction in ("ack", "rst"):
+                run_mid_crossing(res, c, reaction)
         res.sample({"behind_unacked_separate_response": list(items[0])})
     return res
 
@@ -557,7 +620,9 @@ def replay(case, scenario, seed):
     if "same_token" in case:
         run_same_token(res, *case["same_token"])
         return [v for v, n in res.violations.values()]
-    if "outgoing" in case:
+    if "mid_crossing" in case:
+        run_mid_crossing(res, tuple(case["mid_crossing"]), case["reaction"])
+    elif "outgoing" in case:
         outgoing(res)
     else:
         cells = [tuple(c) for c in case["cells"]]
